@@ -63,7 +63,7 @@ SHIPPED_HW = [
     ("routeros", "RouterOS CCR1036"), ("pc", "PC"), ("optixtrans", "Huawei OptiXtrans DC908"), ("h3c", "H3C S6850"),
 ]
 
-_WORD_RE = ["[ab]+", "(a|c)", "x\\d", "[a-c]{2}", "(?:foo|ba)", "\\w+"]
+_WORD_RE = ["[ab]+", "(a|c)", "x\\d", "[a-c]{2}", "(?:foo|ba)", "\\w+", "\\w*Eth[0-9\\/]+", "[a-z]+\\/\\d"]
 
 
 @st.composite
@@ -73,7 +73,7 @@ def _cases(draw):
     for _ in range(n):
         k = draw(st.integers(0, 9))
         if k < 4:
-            toks.append(draw(st.sampled_from(["a", "b", "c", "ab", "undo", "no", "delete", "x1"])))
+            toks.append(draw(st.sampled_from(["a", "b", "c", "ab", "undo", "no", "delete", "x1", "notify", "undone", "deleted"])))
         elif k < 7:
             toks.append("*")
         else:
@@ -81,7 +81,7 @@ def _cases(draw):
     tilde = draw(st.booleans())
     icase = draw(st.integers(0, 4)) == 0
     vendor = draw(st.sampled_from(["huawei", "cisco", "juniper", "routeros", "pc", "arista"]))
-    words = st.sampled_from(["a", "b", "c", "ab", "A", "B", "x1", "x12", "foo", "ba", "bb", "cc", "undo", "no", "delete", "abc"])
+    words = st.sampled_from(["a", "b", "c", "ab", "A", "B", "x1", "x12", "foo", "ba", "bb", "cc", "undo", "no", "delete", "abc", "Eth1/0/1", "ge/1", "notify", "undone"])
     rows = draw(st.lists(st.lists(words, min_size=1, max_size=8).map(" ".join), min_size=1, max_size=6))
     return {"kind": "gen", "pattern": ("(?i)" if icase else "") + " ".join(toks) + (" ~" if tilde else ""), "vendor": vendor, "rows": rows}
 
@@ -99,7 +99,8 @@ def _positive(toks):
         elif t == "~":
             out += ["c", "a"]
         elif t.startswith("*/"):
-            for cand in ["a", "ab", "c", "x1", "ba", "cc", "foo", "b"]:
+            for cand in ["a", "ab", "c", "x1", "ba", "cc", "foo", "b", "Eth1/0/1", "GigabitEthernet1/0/1", "Ethernet1/1", "ge/1", "10GE1/0/1",
+                         "Vlanif10", "port-channel10", "Loopback0", "100", "Eth-Trunk1"]:
                 if re.fullmatch(t[2:-1], cand):
                     out.append(cand)
                     break
@@ -206,13 +207,17 @@ def _shipped(case):
         decided += 1
         muts = [pos]
         w = pos.split(" ")
-        for i, t in enumerate(toks):
+        anchored = any(t.startswith("*/") and re.search(r"\$|\^", t.replace("[^", "")) for t in toks)
+        # (a '$' inside */regex/ anchors to the end of the ROW: such rules deliberately refuse trailing words; only the positive row,
+        #  its key and its removal command are asserted for them)
+        for i, t in enumerate(toks if not anchored else []):
             if t not in ("*", "~") and not t.startswith("*/"):
                 m1 = list(w); m1[i] = w[i] + "zz"; muts.append(" ".join(m1))       # crosses the word boundary
                 m2 = list(w); m2[i] = "zz" + w[i]; muts.append(" ".join(m2))
-        if len(w) > 1:
+        if len(w) > 1 and not anchored:
             muts.append(" ".join(w[:-1]))                                           # truncated
-        muts.append(pos + " extra")
+        if not anchored:
+            muts.append(pos + " extra")
         for r in muts:
             m = rx.match(r)
             got = None if m is None else tuple(m.groups())
